@@ -308,6 +308,68 @@ def impl_prim(case):
         return _exc(ex)
 
 
+# ---- arrays WITHOUT stored elements made by the library (zero-size contraction, empty selections, zeros) joined /
+#      combined with ordinary arrays: compared with NumPy
+def impl_emptyidx(case):
+    import warnings
+
+    import numpy as np
+    import sparse
+    warnings.filterwarnings("ignore")
+    m, t, how, op = case["m"], case["t"], case["how"], case["op"]
+    yd = np.arange(1, m * m + 1).reshape(m, m) % 5
+    y0 = sparse.COO.from_numpy(yd)
+    y = sparse.COO(y0.coords.astype(t), y0.data, shape=y0.shape, sorted=True, has_duplicates=False)
+    a = np.ones((m, 0), dtype=int)
+    if how == "tensordot0":
+        z = sparse.tensordot(sparse.COO.from_numpy(a), sparse.COO.from_numpy(a.T), axes=1)
+    elif how == "dot0":
+        z = sparse.dot(sparse.COO.from_numpy(a), sparse.COO.from_numpy(a.T))
+    elif how == "empty_typed":
+        z = sparse.COO(np.zeros((2, 0), dtype=t), np.zeros(0, dtype=int), shape=(m, m))
+    elif how == "mask_empty":
+        z = y[y.shape[0]:, :].broadcast_to((m, m)) if False else (y * 0)
+    else:
+        z = sparse.zeros((m, m), dtype=int)
+    zd = np.zeros((m, m), dtype=int)
+    ops = {
+        "concat0": (lambda: sparse.concatenate([z, y], axis=0), lambda: np.concatenate([zd, yd], axis=0)),
+        "concat1": (lambda: sparse.concatenate([y, z], axis=1), lambda: np.concatenate([yd, zd], axis=1)),
+        "stack0": (lambda: sparse.stack([z, y], axis=0), lambda: np.stack([zd, yd], axis=0)),
+        "stack2": (lambda: sparse.stack([y, z], axis=2), lambda: np.stack([yd, zd], axis=2)),
+        "add": (lambda: z + y, lambda: zd + yd),
+        "kron": (lambda: sparse.kron(z, y), lambda: np.kron(zd, yd)),
+        "pad": (lambda: sparse.pad(z, 1), lambda: np.pad(zd, 1)),
+        "dot": (lambda: sparse.dot(z, y), lambda: zd @ yd),
+        "sum": (lambda: sparse.concatenate([z, y], axis=0).sum(axis=0), lambda: np.concatenate([zd, yd]).sum(axis=0)),
+    }
+    f, g = ops[op]
+    want = g()
+    try:
+        r = f()
+        got = r.todense() if hasattr(r, "todense") else np.asarray(r)
+        ok = got.shape == want.shape and bool(np.array_equal(got, want))
+        return {"ok": ok, "z_idx": str(z.coords.dtype), "res_idx": str(getattr(getattr(r, "coords", None), "dtype", None))}
+    except Exception as ex:  # noqa: BLE001
+        e = _exc(ex)
+        return {"ok": False, "exc": e["exc"], "cls": e["cls"], "msg": e["msg"], "z_idx": str(z.coords.dtype)}
+
+
+def impl_emptyidx_batch(batch):
+    return [impl_emptyidx(c) for c in batch["items"]]
+
+
+def gen_emptyidx_cases(tier, rng):
+    cases = []
+    for t in TYPES:
+        for how in ("tensordot0", "dot0", "empty_typed", "mask_empty", "zeros"):
+            for op in ("concat0", "concat1", "stack0", "stack2", "add", "kron", "pad", "dot", "sum"):
+                if tier == "quick" and rng.random() < 0.5 and how not in ("tensordot0", "empty_typed"):
+                    continue
+                cases.append(dict(m=rng.choice([2, 3]), t=t, how=how, op=op))
+    return cases
+
+
 # ---- index ARRAYS of narrow integer dtypes (fancy indexing): the result must not depend on the array's dtype
 def impl_idxarr(case):
     import warnings
@@ -403,6 +465,9 @@ def _diff_calls():
         "add_bcast": lambda x: x + x[:1],
         "mul_self": lambda x: x * x,
         "dot": lambda x: sparse.dot(x, x.T) if x.ndim == 2 else sparse.dot(x, x),
+        "dot_T": lambda x: sparse.dot(x.T, x) if x.ndim == 2 and x.shape[1] <= 300 else (sparse.dot(x.T[:200], x[:, :200]) if x.ndim == 2 else sparse.dot(x, x)),
+        "matmul_self": lambda x: (x @ x.T) if x.ndim == 2 else x @ x,
+        "tensordot_11": lambda x: sparse.tensordot(x, x, axes=([x.ndim - 1], [x.ndim - 1])),
         "sort": lambda x: sparse.sort(x),
         "bcast_to": lambda x: x.broadcast_to((2,) + x.shape),
         "nonzero": lambda x: np.stack(x.nonzero()).astype(np.int64),
@@ -732,7 +797,7 @@ def gen_prim_cases(tier, rng):
 
 # calls whose cost is dominated by compiling Numba kernels for the index dtype: in the quick tier they run for the
 # narrowest signed / unsigned types, one 16-bit type and uint64 only (all eight types in the thorough tier)
-JIT_HEAVY = {"einsum_ji_i", "einsum_ji_i_fancy", "einsum_ji_i_item", "flip_fancy", "ms_join_dense", "ms_join_ca1_dense", "ms_join_ca1_sum", "ms_join_cca2", "ms_join_cca2_tocoo", "ms_join_T",
+JIT_HEAVY = {"dot_T", "matmul_self", "tensordot_11", "einsum_ji_i", "einsum_ji_i_fancy", "einsum_ji_i_item", "flip_fancy", "ms_join_dense", "ms_join_ca1_dense", "ms_join_ca1_sum", "ms_join_cca2", "ms_join_cca2_tocoo", "ms_join_T",
              "ms_join_T_dense", "ms_join_reshape_sum", "ms_join_flat", "ms_stack_cca", "ms_join_sum0", "ms_join_max12",
              "gcxs_fancy_rep", "sort", "dot", "gcxs_dot", "getitem_fancy", "getitem_last", "getitem_int", "gcxs_getitem", "gcxs_getitem_neg",
              "gcxs_stack", "gcxs_reshape", "gcxs_concat", "gcxs_concat_dense", "to_gcxs_back", "gcxs_T", "gcxs_sum0",
@@ -748,6 +813,11 @@ def gen_diff_items(tier, rng):
     for t in ("int8", "int16"):
         n = 127 if t == "int8" else 32767
         items.append(("gcxs_fancy_rep", [n, 6], [[0, 0], [0, 3], [0, 5], [n // 2, 0], [n - 1, 5]], t, "coords"))
+    # products of COO operands holding more stored elements than the narrow dtype can count (every axis fits)
+    for t in ("int8", "uint8", "int16", "uint16"):
+        n = 100 if tbits(t)[0] == 8 else 30000
+        for name in ("dot", "dot_T", "matmul_self", "tensordot_11"):
+            items.append((name, [3, n], [], t, "full"))
     # user coordinates out of order / repeated, every index type (cheap: no dtype-specific kernels beyond getitem)
     usnames = [n for n in allnames if n.startswith("us_")]
     for t in TYPES:
@@ -1096,8 +1166,29 @@ def campaign(build, tier, seed, report, budget=1):
                      "replay_py": "import sys; sys.path.insert(0, '/verif/tools'); from props import c15; "
                                   f"print(c15.impl_idxarr({c!r}))"})
     lap("idxarr")
+    # ---- stream emptyidx: library-made arrays without stored elements combined with ordinary arrays, against NumPy
+    ecases = gen_emptyidx_cases(tier, rng)
+    eb = [ecases[k::6] for k in range(6)]
+    ebres = vlib.run_impl("props.c15", "impl_emptyidx_batch", [{"items": b} for b in eb], workers=6, per_case_timeout=300.0)
+    e_bad = 0
+    for k, rs in enumerate(ebres):
+        for j, c in enumerate(eb[k]):
+            r = rs[j] if isinstance(rs, list) else dict(rs)
+            if r.get("ok"):
+                continue
+            if r.get("exc") == "ValueError":        # names the index type: allowed outcome
+                continue
+            e_bad += 1
+            clause = "uint64_promotes_to_float" if c["t"] == "uint64" and r.get("cls") in ("TypeError", "IndexError", "TypingError") else None
+            viol.append({"property": "C15", "op": "empty_then:" + c["op"], "kind": "value", "clause": clause,
+                         "idx_dtype": c["t"], "case": c, "impl": r,
+                         "replay_py": "import sys; sys.path.insert(0, '/verif/tools'); from props import c15; "
+                                      f"print(c15.impl_emptyidx({c!r}))"})
+    cov.setdefault("streams_extra", {})["emptyidx"] = len(ecases)
+    cov["streams_extra"]["emptyidx_bad"] = e_bad
+    lap("emptyidx")
     report["notes"].append(f"timing (s): {timing}")
-    cov["evaluations"] = len(pcases) + len(ocases) + d_total + len(icases)
+    cov["evaluations"] = len(pcases) + len(ocases) + d_total + len(icases) + len(ecases)
     cov["distinct_nontrivial"] = len({json.dumps(c, sort_keys=True, default=str) for c in ocases}) + \
         len({json.dumps(c, sort_keys=True) for c in pcases}) + len({json.dumps(i) for i in items})
     cov["rule"] = ("prim: NumPy rules on the eight index types with operands at each type's limits; op: every modelled "
